@@ -5,7 +5,22 @@ from ..summary import Item, items, is_ok, bv
 from . import c05
 
 ID = 'C16'
-ENGINE_B = {'template': 't_inherit', 'kinds': ['layout_'], 'max_quick': 12, 'max_thorough': 64, 'abi': True}
+
+
+def all_vfuncs_have_receiver(summ):
+    """pyxis accepts a virtual function without a receiver but the wrapper it emits for it (`self.vftable()` in a function
+    without self) does not compile; such descriptions cannot be Engine B witnesses"""
+    for m in summ[1]:
+        for it in m[3]:
+            inner = it[4][3] if it[4][0] == 'resolved' else None
+            if inner and inner[0] == 'type' and inner[4]:
+                for f in inner[4][0]:
+                    if not (f[5] and isinstance(f[5][0], str)): return False
+    return True
+
+ENGINE_B = [{'template': 't_inherit', 'kinds': ['layout_'], 'max_quick': 8, 'max_thorough': 48, 'abi': True},
+            {'template': 't_vft', 'kinds': ['layout_'], 'max_quick': 12, 'max_thorough': 64, 'abi': True, 'accept': lambda summ: all_vfuncs_have_receiver(summ)},
+            {'template': 't_impl', 'kinds': ['addrcall_'], 'max_quick': 8, 'max_thorough': 32, 'abi': True}]
 CC = c05.CC
 EXPLANATION = ('Three templates are executed symbolically: t_impl (impl function), t_vft (vftable block incl. placeholder slots) and '
                't_inherit (the same virtual function seen through derived tables).  The calling-convention attribute ranges over '
@@ -41,7 +56,7 @@ def vft_assume(a, ps):
 
 def inh_assume(a, ps):
     A = [a[0] == ps, a[1] == 1, z3.ULE(a[2], 1), z3.ULE(a[3], 1), z3.ULE(a[4], 1), z3.Or(a[5] == 0, a[5] == 5), z3.Implies(a[4] != 1, a[5] == 0),
-         z3.ULE(a[6], 1), a[7] == 0, a[8] == 0, a[9] == 0, a[10] == 0, a[11] == 0, a[12] == 1, z3.ULE(a[13], 8), a[14] == 0]
+         z3.ULE(a[6], 1), a[7] == 0, a[8] == 0, a[9] == 0, a[10] == 0, a[11] == 0, a[12] == 1, z3.ULE(a[13], 8), a[14] == 0, a[15] == 0, a[16] == 0]
     return A
 
 
@@ -50,7 +65,7 @@ def slices(tier, rng):
     for ps in (4, 8):
         out.append(Slice('impl-ps%d' % ps, 't_impl', 12, lambda a, ps=ps: impl_assume(a, ps), opts={'must_reach': ['ok', 'err']}, ctx={'t': 'impl'}))
         out.append(Slice('vft-ps%d' % ps, 't_vft', 24, lambda a, ps=ps: vft_assume(a, ps), opts={'must_reach': ['ok', 'err']}, ctx={'t': 'vft'}))
-        out.append(Slice('inherit-ps%d' % ps, 't_inherit', 15, lambda a, ps=ps: inh_assume(a, ps), opts={'must_reach': ['ok', 'err']}, ctx={'t': 'inh'}))
+        out.append(Slice('inherit-ps%d' % ps, 't_inherit', 17, lambda a, ps=ps: inh_assume(a, ps), opts={'must_reach': ['ok', 'err']}, ctx={'t': 'inh'}))
     return out
 
 
